@@ -267,6 +267,18 @@ func c01r5(c *Ctx) {
 			enc = cs.Value()
 		}
 		if enc == nil {
+			// delegation: the encoder hands the whole value to the other string encoder, which is judged itself
+			delegated := false
+			for _, other := range []string{"(*Message).PutString", "(*Message).PutStringBytes"} {
+				if g := c.LookupFn("message", other); g != nil && g != fn && len(callsIn(fn, g.Object())) > 0 {
+					delegated = true
+				}
+			}
+			if delegated {
+				n += 2
+				c.Ok(rule, fnName(fn)+"#delegates", "delegates to the other string encoder", fn.Pos())
+				continue
+			}
 			c.Undecided(rule, fnName(fn)+"#IsEncrypted", "no IsEncrypted() call: cannot tell when the length prefix is written", fn.Pos())
 			continue
 		}
@@ -342,7 +354,7 @@ func c01r5(c *Ctx) {
 					flushes = append(flushes, in)
 					return
 				}
-				w, isW, okW := c.c01WriteLin(fn, call, bufF, flush, 0)
+				w, isW, okW := c.c01WriteLinA(fn, call, bufF, flush, 0, assume)
 				if !isW {
 					return
 				}
@@ -437,8 +449,14 @@ func edgeList(c *Cuts) []Edge {
 	return out
 }
 
-// c01WriteLin: if call appends to the message's frame buffer, the number of bytes as a linear form.
+// c01WriteLin: if call appends to the message's frame buffer, the number of bytes as a linear form over the
+// caller's values. A same-package method on the same receiver is evaluated with the caller's assumptions mapped
+// onto its parameters (only the writes on its feasible paths count) and its parameters replaced by the arguments.
 func (c *Ctx) c01WriteLin(fn *ssa.Function, call *ssa.Call, bufF interface{ Name() string }, flush *ssa.Function, depth int) (lin c01Lin, isWrite, ok bool) {
+	return c.c01WriteLinA(fn, call, bufF, flush, depth, nil)
+}
+
+func (c *Ctx) c01WriteLinA(fn *ssa.Function, call *ssa.Call, bufF interface{ Name() string }, flush *ssa.Function, depth int, assume map[ssa.Value]bool) (lin c01Lin, isWrite, ok bool) {
 	cc := call.Common()
 	// direct bytes.Buffer methods on m.buffer
 	if o := calleeObj(call); o != nil && o.Pkg() != nil && o.Pkg().Path() == "bytes" && len(cc.Args) > 0 {
@@ -454,36 +472,103 @@ func (c *Ctx) c01WriteLin(fn *ssa.Function, call *ssa.Call, bufF interface{ Name
 			return c01Lin{}, true, false
 		}
 	}
-	// a method of *Message on the same receiver that writes a fixed number of bytes (PutInt32 -> PutInt)
 	g := calleeFn(call)
-	if g == nil || g.Blocks == nil || fnPkg(g) != fnPkg(fn) || g == flush || len(cc.Args) == 0 || len(fn.Params) == 0 || cc.Args[0] != ssa.Value(fn.Params[0]) {
+	if g == nil || g.Blocks == nil || fnPkg(g) != fnPkg(fn) || g == flush || len(cc.Args) == 0 || len(fn.Params) == 0 || cc.Args[0] != ssa.Value(fn.Params[0]) || len(g.Params) != len(cc.Args) {
 		return c01Lin{}, false, true
 	}
 	if depth > 3 {
 		return c01Lin{}, true, false
 	}
+	assume2 := map[ssa.Value]bool{}
+	for i, par := range g.Params {
+		if val, known := assume[cc.Args[i]]; known {
+			assume2[par] = val
+		}
+	}
+	cuts := newCuts()
+	for _, b := range g.Blocks {
+		ifi := blockIf(b)
+		if ifi == nil {
+			continue
+		}
+		a := condAtom(ifi.Cond)
+		if val, known := assume2[a.X]; known && a.Op == token.ILLEGAL {
+			if a.Neg {
+				val = !val
+			}
+			if val {
+				cuts.AddEdges(Edge{b, 1})
+			} else {
+				cuts.AddEdges(Edge{b, 0})
+			}
+		}
+	}
+	succ := c.successTargets(g)
 	total := c01Lin{}
 	any, bad := false, false
 	allInstrs(g, func(_ *ssa.BasicBlock, _ int, in ssa.Instruction) {
 		sub, isCall := in.(*ssa.Call)
-		if !isCall {
+		if !isCall || bad {
 			return
 		}
-		w, isW, okW := c.c01WriteLin(g, sub, bufF, flush, depth+1)
+		// only sites on a feasible path to a success return
+		if findPath(entryPoint(g), Target{Instr: in}, cuts) == nil {
+			return
+		}
+		reach := false
+		for _, t := range succ {
+			if findPath(after(in), t.Target(), cuts) != nil {
+				reach = true
+			}
+		}
+		if !reach {
+			return
+		}
+		w, isW, okW := c.c01WriteLinA(g, sub, bufF, flush, depth+1, assume2)
 		if !isW {
 			return
 		}
 		any = true
-		if !okW || !w.isConst() || findPath(after(in), Target{Instr: in}, nil) != nil {
+		if !okW || findPath(after(in), Target{Instr: in}, cuts) != nil {
 			bad = true
 			return
+		}
+		// every counted site must lie on every feasible success path of the helper
+		for _, t := range succ {
+			if findPath(entryPoint(g), t.Target(), newCuts().AddInstrs(in).AddEdges(edgeList(cuts)...)) != nil {
+				bad = true
+			}
 		}
 		total = total.add(w, 1)
 	})
 	if !any {
 		return c01Lin{}, false, true
 	}
-	return total, true, !bad
+	if bad {
+		return c01Lin{}, true, false
+	}
+	// replace the helper's parameters by the caller's arguments
+	out := c01Lin{k: total.k, atoms: map[ssa.Value]int64{}}
+	for at, cf := range total.atoms {
+		sub := c01Lin{atoms: map[ssa.Value]int64{at: 1}}
+		for i, par := range g.Params {
+			if at == ssa.Value(par) {
+				// an atom keyed by a []byte/string parameter stands for its length
+				if isBasic(par.Type()) && par.Type().Underlying().(*types.Basic).Info()&types.IsString == 0 {
+					sub, _ = c01EvalLin(cc.Args[i], assume, 0)
+				} else {
+					sub = c01LenLin(cc.Args[i])
+				}
+			}
+		}
+		for j := int64(0); j < cf; j++ {
+			out = out.add(sub, 1)
+		}
+		for j := int64(0); j > cf; j-- {
+			out = out.add(sub, -1)
+		}
+	}
+	return out, true, true
 }
 
 func (c *Ctx) msgIfaceMethod(rule, name string) *ssaTypesFunc {
